@@ -328,7 +328,7 @@ def legal_history(rng, nblocks, ncalls, maxn=4):
             calls.append("r:1:%d" % idx if w == "r1" else "w:%d:1:%d" % (idx, rng.below(1 << 20)))
         elif w in ("rn", "wn"):
             n = rng.choice([2, 2, 3, maxn, 0])
-            idx = rng.choice([0, 1, max(0, nblocks - n), rng.below(max(1, nblocks - n + 1))])
+            idx = rng.choice([0, 1, min(nblocks - 1, max(0, nblocks - n)), rng.below(max(1, min(nblocks, nblocks - n + 1)))])   # in range: idx < nblocks, idx + n <= nblocks
             calls.append("r:%d:%d" % (n, idx) if w == "rn" else "w:%d:%d:%d" % (idx, n, rng.below(1 << 20)))
         else:
             calls.append(w)
